@@ -197,7 +197,11 @@ fn run_case(lines: &[Line], compress: bool) -> Result<(String, bool), String> {
     let extracted: Vec<u32> = {
         let reader = PdfReader::new(Cursor::new(bytes.clone())).map_err(|e| format!("reopen: {e:?}"))?;
         let pd = PdfDocument::new(reader);
-        pd.extract_text_from_page(0).map_err(|e| format!("extract: {e:?}"))?.text.chars().map(|c| c as u32).collect()
+        // hyphen merging is a layout option whose documented meaning is to DROP a line-final '-';
+        // C13 is about recovering the drawn characters, so it is switched off (a generated line
+        // ending in '-' made the thorough tier raise a false alarm with the default options)
+        let opts = oxidize_pdf::text::ExtractionOptions { merge_hyphenated: false, ..Default::default() };
+        pd.extract_text_from_page_with_options(0, opts).map_err(|e| format!("extract: {e:?}"))?.text.chars().map(|c| c as u32).collect()
     };
     // (b) structures
     let mut r = PdfReader::new(Cursor::new(bytes.clone())).map_err(|e| format!("reopen: {e:?}"))?;
